@@ -455,10 +455,22 @@ Proof.
 Qed.
 Example ex_strip : strip (apply_noise ex_settings ex_map ex_circuit) = normalise (flatten ex_circuit).
 Proof. apply strip_apply_noise, ex_noiseless. Qed.
-Example ex_dressed_length : List.length (apply_noise ex_settings ex_map ex_circuit) = 39%nat.
+Example ex_dressed_length : List.length (apply_noise ex_settings ex_map ex_circuit) = 31%nat.
 Proof. vm_compute. reflexivity. Qed.
 Example ex_meas : In (MkI "M" [TQ 1] (AErr "0x1.eb851eb851eb8p-6")) (apply_noise ex_settings ex_map ex_circuit)
                /\ In (MkI "M" [TQ 0] (AErr "0x1.47ae147ae147bp-7")) (apply_noise ex_settings ex_map ex_circuit).
 Proof. vm_compute. tauto. Qed.
 Example ex_idle : In (MkI "PAULI_CHANNEL_1" [TQ 1] (APauli 60 5000 7000)) (apply_noise ex_settings ex_map ex_circuit).
 Proof. vm_compute. tauto. Qed.
+
+(* the defect as an input/output pair of the model: `M 0` under the default settings is wrapped by channels of duration 0
+   although the configured measurement duration is positive *)
+Lemma f6_refuted :
+  assoc String.eqb "M" (duration_mapper OperationDurationParameters_default) = None ->
+  default_duration OperationDurationParameters_default = 0 ->
+  0 < duration_mz OperationDurationParameters_default ->
+  exists s m c, 0 < duration_mz (s_durations s) /\
+    dress s m c = [idle_chan s m 0 0; MkI "M" [TQ 0] (AErr (qp_assignment_error (spec_params s m 0))); idle_chan s m 0 0].
+Proof.
+  intros K L P. exists default_settings, [], f6_circuit. split; [exact P|]. rewrite (f6_output K L). reflexivity.
+Qed.
